@@ -41,7 +41,7 @@ JsonOK(r) ==
   /\ IF x.ok THEN /\ r.out.k = "j"
                   /\ (x.amb \/ JS!JSame(x.j, r.out.j))
                   /\ (JS!JsonNative(r.a) /\ ~x.amb) => (r.back.k = "v" /\ Eq(r.back.v, r.a))     \* import(export(v)) == v
-     ELSE r.out.k = "e" /\ (r.out.c = x.c \/ "anyc" \in DOMAIN x)
+     ELSE r.out.k = "e"                                         \* "an error": which of the two variants is not pinned
 
 CaseOK(r) == CASE r.op = "ser" -> SerOK(r) [] r.op = "serjson" -> SerJsonOK(r) [] r.op = "json" -> JsonOK(r)
 
